@@ -37,6 +37,10 @@ def main():
         print(p.stdout)
         sys.exit(2)
     out = {"mutant": mdir, "checks": {}}
+    # run the checks from a snapshot of /verif so that edits made meanwhile do not disturb the evaluation
+    snap = os.path.join(EV, "verif_snap")
+    sh(["rsync", "-a", "--delete", "--exclude", "target", "--exclude", "work", "--exclude", ".git", "--exclude", "evidence",
+        "--exclude", "replays", "/verif/", snap + "/"])
     try:
         tenv = {"CARGO_TARGET_DIR": os.path.join(EV, "target_dev")}
         demo = os.path.join(mdir, "demo.rs")
@@ -66,10 +70,12 @@ def main():
         for pid in a.pids:
             t0 = time.time()
             od = os.path.join(EV, "out_" + name)
-            r = sh(["python3", "/verif/tools/check.py", pid, "--tier", a.tier], cwd="/verif",
+            r = sh(["python3", os.path.join(snap, "tools", "check.py"), pid, "--tier", a.tier], cwd=snap,
                    env={"VERIF_REPO": wt, "VERIF_OUT": od})
             lines = [l for l in r.stdout.splitlines() if l.startswith(("VIOLATION", "  what", "KNOWN-FINDING", "DRIFT", "TOOL-ERROR"))]
             out["checks"][pid] = {"exit": r.returncode, "wall_s": round(time.time() - t0), "lines": lines[:12]}
+            if r.returncode not in (0, 1) or (r.returncode == 1 and not lines):
+                out["checks"][pid]["tail"] = r.stdout[-1500:]
     finally:
         sh(["git", "-C", "/repo", "worktree", "remove", "--force", wt])
         shutil.rmtree(wt, ignore_errors=True)
